@@ -280,7 +280,11 @@ class IrcUser(object):
                 for (when, authmask) in self.auth:
                     if timeout and when+timeout < time.time():
                         removals.append((when, authmask))
-                    elif hostmask == authmask:
+                    elif hostmask == authmask and \
+                         (not self.secure or
+                          self.checkHostmask(hostmask, useAuth=False)):
+                        # An identification only counts for a secure user
+                        # if one of their hostmasks matches as well.
                         return True
             finally:
                 while removals:
